@@ -5,8 +5,8 @@ CONSTANTS
   Fams = {"f0", "fd"}
   Clones = {"base"}
   Reqs = {"r1", "r2"}
-  SetLevels = {"debug", "warning", "bogus"}
-  ReqLevels = {"absent", "info", "error"}
+  SetLevels = {"debug", "warning", "error", "bogus"}
+  ReqLevels = {"absent", "info", "error", "bogus"}
   DirectLevels = {"debug", "notice", "error", "bogus"}
   Slog <- SlogMid
   Ticks = {1, 2, 3}
